@@ -1,4 +1,5 @@
 import Cppcheck.Proofs.VarMap
+import Cppcheck.Proofs.ClassVars
 /-
 C08 — property theorems (name resolution on the scope fragment).
 
@@ -143,6 +144,57 @@ theorem resolveOld_counterexample :
     ¬ ∀ p : Prog, progOK [] p = true → noEnumHidesVar p = true → resolveOld p = specProg p := by
   intro h
   have := h f4Prog (by decide) (by decide)
+  revert this
+  decide
+
+/-! ## class members in member functions defined outside the class (setVarIdPass2: `thisClassVars`) -/
+
+/-- **Member table, all hierarchies (partial)**: whenever C++ member lookup of `x` in class `i` is not ambiguous, the table
+"bases first without overwriting, then own members overwriting" gives exactly its answer: the found declaration's id,
+or nothing. Any number of classes, any depth, several bases allowed. -/
+theorem classvars_refines_partial (cs : List ClassDecl) (h : classesWF cs = true) (i : Nat) (hi : i < cs.length) (x : VName) :
+    (∀ v, memberLookup cs (i + 1) i x = .found v → lookup ((buildAll cs).getD i []) x = some v) ∧
+    (memberLookup cs (i + 1) i x = .notFound → lookup ((buildAll cs).getD i []) x = none) := by
+  have ha := table_agrees cs (WF_of_classesWF cs h) i hi (i + 1) (by omega) x
+  constructor
+  · intro v hv; rw [hv] at ha; exact ha
+  · intro hn; rw [hn] at ha; exact ha
+
+/-- **Single inheritance chains (full)**: the id a member name gets in a member function of class `i` is the id of the
+declaration C++ member lookup finds (own members hide base members at every level), 0 if there is none. -/
+theorem classvars_refines (cs : List ClassDecl) (h : classesWF cs = true) (hs : singleInheritance cs = true)
+    (i : Nat) (hi : i < cs.length) (x : VName) :
+    classVarId cs i x = (match memberLookup cs (i + 1) i x with | .found v => v | _ => 0) := by
+  have ha := table_agrees cs (WF_of_classesWF cs h) i hi (i + 1) (by omega) x
+  have hna := single_not_ambiguous cs hs x (i + 1) i
+  unfold classVarId
+  cases hr : memberLookup cs (i + 1) i x with
+  | found v => rw [hr] at ha; simp only [Agree] at ha; rw [ha]; rfl
+  | notFound => rw [hr] at ha; simp only [Agree] at ha; rw [ha]; rfl
+  | ambiguous => exact absurd hr hna
+
+/-- a three-level chain `C0 { v0, v1 }  C1 : C0 { v0 }  C2 : C1 { v1 }` satisfies the hypotheses; in C2 `v0` is C1's -/
+example : classesWF [⟨[], [(0, 1), (1, 2)]⟩, ⟨[0], [(0, 3)]⟩, ⟨[1], [(1, 4)]⟩] = true ∧
+    singleInheritance [⟨[], [(0, 1), (1, 2)]⟩, ⟨[0], [(0, 3)]⟩, ⟨[1], [(1, 4)]⟩] = true ∧
+    classVarId [⟨[], [(0, 1), (1, 2)]⟩, ⟨[0], [(0, 3)]⟩, ⟨[1], [(1, 4)]⟩] 2 0 = 3 := by decide
+
+/-- with two bases that both declare the name the use is ambiguous (ill-formed) for the compiler, the table silently
+answers with the first base: the full-strength statement needs the non-ambiguity premise -/
+theorem classvars_two_bases_counterexample :
+    ¬ ∀ (cs : List ClassDecl) (i : Nat) (x : VName), classesWF cs = true → i < cs.length →
+        classVarId cs i x = (match memberLookup cs (i + 1) i x with | .found v => v | _ => 0) := by
+  intro h
+  have := h [⟨[], [(0, 1)]⟩, ⟨[], [(0, 2)]⟩, ⟨[0, 1], []⟩] 2 0 (by decide) (by decide)
+  revert this
+  decide
+
+/-- **the seeded change** (`thisClassVars.emplace` instead of `operator[]`: own members do not overwrite): refuted already
+by `struct C0 { v0 }; struct C1 : C0 { v0 };` — in C1 the base's id wins -/
+theorem classvars_nooverwrite_counterexample :
+    ¬ ∀ (cs : List ClassDecl) (i : Nat) (x : VName), classesWF cs = true → singleInheritance cs = true → i < cs.length →
+        (lookup ((buildAllNoOverwrite cs).getD i []) x).getD 0 = (match memberLookup cs (i + 1) i x with | .found v => v | _ => 0) := by
+  intro h
+  have := h [⟨[], [(0, 1)]⟩, ⟨[0], [(0, 2)]⟩] 1 0 (by decide) (by decide) (by decide)
   revert this
   decide
 
